@@ -656,7 +656,7 @@ def harnesses(tier):
     if not q:
         hs.append(Harness("sampler.2d.1.2", h_sampler_extensions, {"dim": 2, "L": 1, "R": 2}, max_paths=4000, batch=20))
         hs.append(Harness("sampler.2d.3.1", h_sampler_extensions, {"dim": 2, "L": 3, "R": 1}, max_paths=8000, batch=20))
-        hs.append(Harness("sampler.2d.1.2.three_draws", h_sampler_extensions, {"dim": 2, "L": 1, "R": 2, "draws": 3}, max_paths=8000, batch=20))
+        hs.append(Harness("sampler.2d.2.1.three_draws", h_sampler_extensions, {"dim": 2, "L": 2, "R": 1, "draws": 3}, max_paths=80000, batch=20))
         hs.append(Harness("sampler.1d.2.3", h_sampler_extensions, {"dim": 1, "L": 2, "R": 3, "draws": 3}, max_paths=4000, batch=20))
     hs.append(Harness("ieee.sqrt.52", h_sqrt_lemma, {"W": 52}))
     for name in ("RosenbergStrong", "Szudzik"):
